@@ -18,9 +18,8 @@ ENTRY = {
         "the answer part (re-running gives the single-node answer) rests on C09_gather_partial for the fragment proved there, on the correspondence runs otherwise",
     ],
     "min_tags": {"gather:pruned": 1, "gather:all": 1, "gather_tables:2": 1, "s:join": 1, "s:subquery": 1, "s:cte": 1, "s:setop": 1, "s:distinct": 1, "gathered:right": 1},
-    "explanation": "K compares with the model under the switches of the code as it is (skipSubqueryPlans on = finding C45-F1); the intended model (all switches off) is what "
-                   "C45_covers_plan is about. A failing case is attributed only if the FULL gather repairs it (the pruning is the cause) and either the intended model gathers strictly "
-                   "more (C45-F1) or the statement defines a CTE it never references (C45-F2).",
+    "explanation": "K compares with the model under the switches of the code as it is: none since C45-F1 was fixed (before: skipSubqueryPlans). The attribution rules of Driver.C45 "
+                   "(full gather repairs the run and the intended model gathers more / an unreferenced CTE exists) are inactive while both ids are fixed: a recurrence is a VIOLATION.",
     "manifest": {
         "category": "proof",
         "text": "Lean theorems over the executable model of plan_gather / collect_scans on the engine's exported plan type: with the walk entering the plans of subquery expressions "
@@ -29,8 +28,9 @@ ENTRY = {
                 "C45_merge_union, C45_columnless_scan); the walk as coded (LogicalPlan::children only) covers exactly the scans it reaches (C45_covers_plan_children) and misses the rest "
                 "(C45_F1_witness, kernel-checked); re-binding over a table from which only non-gathered columns were dropped resolves every reference to the SAME field "
                 "(C45_rebind, C45_rebind_all). Tied to the code by correspondence: the model's table / column lists EQUAL plan_gather's on every generated statement, and the statement "
-                "re-run over the gathered tables is compared with the single-node answer. The unchanged tree violates the property: C45-F1 (scans inside subquery expressions are not "
-                "collected: bind error or a silently WRONG answer), C45-F2 (tables / columns of an unreferenced CTE definition are not gathered although the binder binds it).",
+                "re-run over the gathered tables is compared with the single-node answer. Found by this check and repaired in /repo: C45-F1 (scans inside subquery expressions were not "
+                "collected: bind error or a silently WRONG answer; 1c600c2), C45-F2 (tables / columns of an unreferenced CTE definition were not gathered although the binder binds it; "
+                "6d3344d - plan_gather now also plans every top-level CTE definition, which the model mirrors); witnesses stay in corpus/C45.",
         "design_ref": "DESIGN.md §6 C45",
         "level_note": "Trusted: Lean kernel; axioms propext/Classical.choice/Quot.sound; the plan exporter; the hand-written model of collect_scans (validated by equality with plan_gather's "
                       "output on every case); harness generators. Not covered: window functions in generated statements (sqlgen has no window stratum), the binder's scoping rules.",
